@@ -18,7 +18,7 @@ from __future__ import annotations
 import json
 
 from ..core import MachineryError
-from ..divisions import KINDS, Verdicts, dd, frame_of, guarded, label_of, observe_as_ranks, parallel_tlc_cases, source_of
+from ..divisions import KINDS, Verdicts, dd, frame_of, guarded, label_of, observe_as_ranks, parallel_tlc_cases, parts_collection, source_of
 from ..frameobs import NA
 from ..par import pmap
 from . import C44
@@ -59,10 +59,10 @@ def build(case, kind):
     lab = lambda r: label_of(r, kind)      # noqa: E731
     if fam == "setidx":
         import pandas as pd
-        from ..frames import from_parts, split_rows
+        from ..frames import split_rows
         idx = case["idx"]
         pdf = pd.DataFrame({"rid": range(len(idx)), "k": list(frame_of(idx, kind).index)})
-        src = from_parts(split_rows(pdf, case["layout"]))
+        src = parts_collection(split_rows(pdf, case["layout"]), key=("setidx", list(idx), list(case["layout"]), kind))
         if arg["k"] == "auto":
             return src.set_index("k") if arg["n"] == 0 else src.set_index("k", npartitions=arg["n"])
         if arg["k"] == "divs":
@@ -202,7 +202,7 @@ def bounds(ctx):
     if ctx.quick:
         truth = {"loc": B(2, 3, 2, 0, 0, 0), "locparts": B(2, 2, 3, 0, 0, 0), "partsrep": B(3, 3, 3, 0, 0, 0), "filter": B(3, 3, 2, 0, 0, 0),
                  "setidx": B(3, 3, 2, 3, 2, 3), "binop": B(2, 2, 2, 0, 1, 2), "concat": B(2, 2, 2, 0, 1, 2)}
-        div = {"n": B(3, 3, 3, 6, 2, 0), "d": B(2, 2, 2, 3, 2, 0), "fp": B(7, 4, 1, 4, 2, 3)}
+        div = {"n": B(3, 3, 3, 5, 2, 0), "d": B(2, 2, 2, 3, 2, 0), "fp": B(7, 4, 1, 3, 2, 3)}
     else:
         truth = {"loc": B(4, 3, 3, 0, 0, 0), "locparts": B(3, 3, 3, 0, 0, 0), "partsrep": B(4, 3, 3, 0, 0, 0), "filter": B(4, 3, 3, 0, 0, 0), "setidx": B(4, 3, 3, 4, 2, 4),
                  "binop": B(3, 2, 2, 0, 2, 2), "concat": B(3, 2, 2, 0, 2, 2)}
@@ -326,7 +326,7 @@ def run(ctx):
     byfam = {}
     for c in cases:
         byfam.setdefault(c["fam"], []).append(c)
-    quota = ctx.pick({"fp": 800, "setidx": 550, "loc": 550, "locparts": 400, "partsrep": 250, "filter": 200, "binop": 300, "concat": 300, "n": 450, "d": 200},
+    quota = ctx.pick({"fp": 700, "setidx": 500, "loc": 500, "locparts": 350, "partsrep": 220, "filter": 180, "binop": 260, "concat": 260, "n": 400, "d": 180},
                      {"fp": 9000, "setidx": 6000, "loc": 6000, "locparts": 4000, "partsrep": 2500, "filter": 2500, "binop": 3500, "concat": 3500, "n": 5000, "d": 2500})
     items = []
     for fam in sorted(byfam):
@@ -336,7 +336,7 @@ def run(ctx):
         pick = rng.sample(pool, min(len(pool), quota[fam]))
         ctx.extra["replayed_%s" % fam] = "%d of %d" % (len(pick), len(byfam[fam]))
         items += [(c, "int") for c in pick]
-    items += [(c, rng.choice(KINDS)) for c in random_cases(rng, ctx.pick(450, 6000))]
+    items += [(c, rng.choice(KINDS)) for c in random_cases(rng, ctx.pick(400, 6000))]
     bad, recs, skips = check_cases(ctx, items, "invariant:recorded-observations")
     for s in skips:
         ctx.skip(s)
